@@ -8,8 +8,12 @@ SSEP = [", ", "; ", "\n"]
 GSEP = [", ", "; ", "\n", "\n\n"]
 
 
-def concretise(abstract, rng, max_sec=36, block_pool=None, tr_map=None):
-    """abstract = {"layout", "groups": [{"tr", "secs": [kind, ...]}]} -> concrete doc with numbers and blocks."""
+def concretise(abstract, rng, max_sec=36, block_pool=None, tr_map=None, vary_tr=False):
+    """abstract = {"layout", "groups": [{"tr", "secs": [kind, ...]}]} -> concrete doc with numbers and blocks.
+    vary_tr: the abstract Twp/Rge identities 1, 2 stand for two different townships drawn from render.TR_POOL."""
+    if vary_tr and tr_map is None:
+        a_, b_ = rng.sample(R.TR_POOL, 2)
+        tr_map = {1: a_, 2: b_}
     nblocks = sum(len(g["secs"]) for g in abstract["groups"])
     pool = block_pool or R.BLOCKS
     texts = rng.sample(pool, nblocks) if nblocks <= len(pool) else [rng.choice(pool) for _ in range(nblocks)]
